@@ -288,8 +288,8 @@ pub fn eval_un(op: &Un, t: Tl, o: Opts) -> Option<Tl> {
       if vs.is_empty() {
         vec![]
       } else {
-        let sum: f64 = vs.iter().map(|v| to_i(v) as f64).sum();
-        vec![V::I((sum / vs.len() as f64 * 1000.0).round() as i64)]
+        let sum: f64 = vs.iter().map(avg_in).sum();
+        vec![avg_out(sum / vs.len() as f64)]
       }
     }),
     Un::Distinct => {
